@@ -6,6 +6,7 @@ package chain
 // BlockHeightWaiter(h) emits exactly h once the chain reached h).
 
 //@ ghost now int
+//@ ghost refBlock int
 //@ spec func isWaiter(ch ref) bool
 //@ spec func waiterHeight(ch ref) int
 
@@ -20,6 +21,6 @@ package chain
 //@   ensures result == nil ==> ghost.now >= blockNumber
 
 //@ assume func BlockCounter.CurrentBlock
-//@   modifies ghost.now
+//@   modifies ghost.now, ghost.refBlock
 //@   ensures ghost.now >= old(ghost.now)
-//@   ensures result1 == nil ==> ghost.now >= result0
+//@   ensures result1 == nil ==> ghost.now >= result0 && ghost.refBlock == result0 && result0 <= 4611686018427387904
